@@ -42,6 +42,12 @@ def builder(seed, n, defaults, tag):
         if kind == "tolvec":
             v = dict(kw); v["rtol"] = [rt] * nn; v["atol"] = [at] * nn
             variants.append(("tolvec", v))
+            # mixed representations: only one of the two written as a constant vector (seeded change C13-b: Radau's
+            # tolerance transform treated "both scalar" and "anything else" differently)
+            v = dict(kw); v["rtol"] = [rt] * nn
+            variants.append(("tolvec-r", v))
+            v = dict(kw); v["atol"] = [at] * nn
+            variants.append(("tolvec-a", v))
         elif kind == "reflect":
             p2 = dict(prob)
             p2["f"] = ["neg," + subst_reflect(e) for e in prob["f"]]
@@ -112,7 +118,7 @@ def group_oracle(metas, parsed):
             if r.get("status") != b.get("status"):
                 out.append((cid, "status-differs:" + name, "status %s vs %s for the equivalent problem" % (r.get("status"), b.get("status"))))
                 continue
-            if name == "tolvec":
+            if name.startswith("tolvec"):
                 if r.get("t") != b.get("t") or r.get("y") != b.get("y") or r.get("stats") != b.get("stats"):
                     out.append((cid, "tolerance-representation", "a scalar tolerance and the constant vector gave different trajectories"))
             elif name == "reflect":
